@@ -156,6 +156,17 @@ func c11Oracle(t interface{ Fatalf(string, ...any) }, c c11Case) string {
 	if c.Class == "valid" && !bytes.Equal(got, c.Data) {
 		t.Fatalf("valid answer decrypted to different data (%d vs %d bytes)", len(got), len(c.Data))
 	}
+	// the data reported as authentic stays that data: the caller holds it while
+	// further answers (here: the same one with a flipped byte, and zeros) are
+	// decrypted, whatever their outcome
+	kept := append([]byte(nil), got...)
+	other := append([]byte(nil), c.CT...)
+	other[len(other)-1] ^= 0x40
+	_, _ = crypto.DecryptExchangeAnswer(other, c.Key, c.IV)
+	_, _ = crypto.DecryptExchangeAnswer(make([]byte, len(c.CT)), c.Key, c.IV)
+	if !bytes.Equal(got, kept) {
+		t.Fatalf("%s: the %d bytes returned with a nil error changed while two further answers were decrypted: they are no longer the authenticated data", c.Class, len(kept))
+	}
 	return "data"
 }
 
